@@ -196,7 +196,8 @@ pub fn gen_scenario(seed: u64, profile: Profile) -> Scenario {
         }
         dgrams.extend(more);
         for r in dg_recv.iter_mut() {
-            *r = match rng.below(4) {
+            *r = match rng.below(5) {
+                4 => Some((wl::DG_RECV_CANCELLING, 0)),
                 0 => None,
                 1 => Some((rng.range(1, 5), 0)),
                 2 => Some((0, rng.range(1, 30))),
